@@ -456,6 +456,26 @@ func (k *c13Caps) uncapped(g *ssa.Function, depth int) bool {
 	return r
 }
 
+// readsCapped: g (or a helper it calls) contains a call of a capped reader.
+func (k *c13Caps) readsCapped(g *ssa.Function, depth int) bool {
+	if g == nil || g.Blocks == nil || depth > 2 {
+		return false
+	}
+	found := false
+	allInstrs(g, func(_ *ssa.BasicBlock, _ int, in ssa.Instruction) {
+		if call, ok := in.(ssa.CallInstruction); ok && !found {
+			h := calleeFn(call)
+			if h == nil {
+				return
+			}
+			if k.capped(h, 0) >= 0 || (h != g && k.e.inLib[h] && k.readsCapped(h, depth+1)) {
+				found = true
+			}
+		}
+	})
+	return found
+}
+
 // capped: the index of the argument that is the byte limit, or -1.
 func (k *c13Caps) capped(g *ssa.Function, depth int) int {
 	if g == k.getStrMx {
@@ -519,114 +539,195 @@ func c13r4(c *Ctx) {
 		c.Undecided(rule, fnName(fn)+"#maxSize", "cannot identify the size-cap parameter", fn.Pos())
 		return
 	}
-	// edges on which maxSize <= 0 (the unlimited mode): comparisons of maxSize with a constant, also
-	// through a local boolean or a module predicate (facts of the taint engine)
-	off := newC13Cuts()
-	offSeen := map[Edge]bool{}
-	for _, f := range e.factsAbout(fn, maxSize) {
-		if !f.ub || f.lenOf || f.by == nil || len(f.also) > 0 {
-			continue
+	// analyse checks one function that reads strings under the cap held in its parameter maxSize: the
+	// capped ClassAd reader itself and, recursively, the same-package helpers it hands the cap to
+	// ("getStringWithinBudget(m, ctx, maxSize, used)": uncapped read when maxSize <= 0, otherwise a capped
+	// read of what is left). It returns the indexes of the parameters its limits depend on besides the cap
+	// (the "used so far" arguments, which the caller must keep up to date).
+	nTests, nUnc, nCap := 0, 0, 0
+	analysed := map[*ssa.Function][]int{}
+	var analyse func(fn *ssa.Function, maxSize *ssa.Parameter, depth int) []int
+	analyse = func(fn *ssa.Function, maxSize *ssa.Parameter, depth int) []int {
+		if u, ok := analysed[fn]; ok {
+			return u
 		}
-		if _, isConst := c13StripConv(f.by).(*ssa.Const); !isConst {
-			continue
-		}
-		z, ok := constInt(f.by)
-		if !ok || !(z <= 0 || (f.strict && z <= 1)) {
-			continue
-		}
-		off.addFact(f)
-		offSeen[f.edge] = true
-	}
-	c.MinCount(rule, "maxSize > 0 tests", len(offSeen), 1)
-	// (a) uncapped reads only in unlimited mode
-	ord := map[string]int{}
-	type capRead struct {
-		call  *ssa.Call
-		limit ssa.Value
-		key   string
-	}
-	var capReads []capRead
-	nUnc := 0
-	var calls []*ssa.Call
-	allInstrs(fn, func(_ *ssa.BasicBlock, _ int, in ssa.Instruction) {
-		if call, ok := in.(*ssa.Call); ok && calleeFn(call) != nil {
-			calls = append(calls, call)
-		}
-	})
-	sort.SliceStable(calls, func(i, j int) bool { return calls[i].Pos() < calls[j].Pos() })
-	for _, call := range calls {
-		g := calleeFn(call)
-		if k.uncapped(g, 0) {
-			nUnc++
-			ord[g.Name()]++
-			key := fmt.Sprintf("%s#uncapped:%s%d", fnName(fn), g.Name(), ord[g.Name()])
-			if cp := pointOf(call); e.reach(entryPoint(fn), c13Tgt{b: cp.Block, idx: cp.Idx}, off) {
-				plain := newCuts()
-				for ed := range off.edges {
-					plain.AddEdges(ed)
-				}
-				c.Violate(rule, key, "uncapped string read ("+g.Name()+") is reachable while a size cap is in force (maxSize > 0): the peer can make the capped reader buffer an arbitrarily large value", call.Pos(), c.describePath(findPath(entryPoint(fn), Target{Instr: call}, plain))...)
-			} else {
-				c.Ok(rule, key, "reachable only when maxSize <= 0", call.Pos())
+		analysed[fn] = nil
+		isCap := func(v ssa.Value) bool {
+			v = c13StripConv(v)
+			if v == ssa.Value(maxSize) {
+				return true
 			}
-			continue
-		}
-		if j := k.capped(g, 0); j >= 0 && j < len(call.Call.Args) {
-			ord["cap"]++
-			capReads = append(capReads, capRead{call, call.Call.Args[j], fmt.Sprintf("%s#capped%d", fnName(fn), ord["cap"])})
-		}
-	}
-	c.Note("%s: %d uncapped read site(s) in the capped ClassAd reader, each reachable only in unlimited mode (none is required)", rule, nUnc)
-	// (b) limits of the capped reads
-	var lens []*ssa.Call
-	allInstrs(fn, func(_ *ssa.BasicBlock, _ int, in ssa.Instruction) {
-		if lc, ok := in.(*ssa.Call); ok {
-			if b, ok := lc.Call.Value.(*ssa.Builtin); ok && b.Name() == "len" && len(lc.Call.Args) == 1 {
-				lens = append(lens, lc)
-			}
-		}
-	})
-	for _, r := range capReads {
-		dep := mustDepend(fn, r.limit, func(v ssa.Value) bool { return v == ssa.Value(maxSize) })
-		c.Check(dep, rule, r.key+"#limit<-maxSize", "limit depends on maxSize", "the limit of this capped read does not depend on maxSize", r.call.Pos())
-		pos := !e.sanitise(c13T{lo: true}, r.limit, r.call, nil, 0).lo
-		c.Check(pos, rule, r.key+"#limit>0", "a dominating test guarantees a positive remaining budget", "no dominating test that the remaining budget is positive (GetStringWithMaxSize reads nothing for a limit <= 0, so the loop would stop consuming but keep going)", r.call.Pos())
-		for _, a := range capReads {
-			// only reads that can be followed by this one (an earlier read, or the same one on a later iteration)
-			if findPath(after(a.call), Target{Instr: r.call}, nil) == nil {
-				continue
-			}
-			res := extractN(a.call, 0)
-			acc := false
-			lenOfRes := func(lc *ssa.Call) bool {
-				for _, o := range origins(fn, lc.Call.Args[0]) {
-					if o == res {
-						return true
+			if ld, ok := v.(*ssa.UnOp); ok && ld.Op == token.MUL {
+				if cell := e.cell(ld.X); cell != nil && e.singleStore(cell) {
+					for _, r := range *maxSize.Referrers() {
+						if st, ok := r.(*ssa.Store); ok && st.Val == ssa.Value(maxSize) && e.cell(st.Addr) == cell {
+							return true
+						}
 					}
 				}
-				return false
 			}
-			for _, lc := range lens {
-				if res != nil && mentionsValue(r.limit, lc) && lenOfRes(lc) {
-					acc = true
+			return false
+		}
+		// edges on which maxSize <= 0 (the unlimited mode): comparisons of maxSize with a constant, also
+		// through a local boolean or a module predicate (facts of the taint engine)
+		off := newC13Cuts()
+		offSeen := map[Edge]bool{}
+		for _, f := range e.factsAbout(fn, maxSize) {
+			if !f.ub || f.lenOf || f.by == nil || len(f.also) > 0 {
+				continue
+			}
+			if _, isConst := c13StripConv(f.by).(*ssa.Const); !isConst {
+				continue
+			}
+			z, ok := constInt(f.by)
+			if !ok || !(z <= 0 || (f.strict && z <= 1)) {
+				continue
+			}
+			off.addFact(f)
+			offSeen[f.edge] = true
+		}
+		nTests += len(offSeen)
+		// (a) uncapped reads only in unlimited mode
+		ord := map[string]int{}
+		type capRead struct {
+			call   *ssa.Call
+			limits []ssa.Value // the limit argument; for a budgeted helper: the arguments its limits depend on
+			helper bool
+			key    string
+		}
+		var capReads []capRead
+		var calls []*ssa.Call
+		allInstrs(fn, func(_ *ssa.BasicBlock, _ int, in ssa.Instruction) {
+			if call, ok := in.(*ssa.Call); ok && calleeFn(call) != nil {
+				calls = append(calls, call)
+			}
+		})
+		sort.SliceStable(calls, func(i, j int) bool { return calls[i].Pos() < calls[j].Pos() })
+		for _, call := range calls {
+			g := calleeFn(call)
+			if k.uncapped(g, 0) {
+				// a helper that is handed the cap and reads under it: analysed like the reader itself
+				if g != fn && g.Blocks != nil && fnPkg(g) == fnPkg(fn) && depth < 2 && k.readsCapped(g, 0) {
+					pc := -1
+					for i, a := range call.Call.Args {
+						if i < len(g.Params) && c13IsInt(g.Params[i].Type()) && isCap(a) {
+							pc = i
+						}
+					}
+					if pc >= 0 {
+						used := analyse(g, g.Params[pc], depth+1)
+						ord["cap"]++
+						r := capRead{call: call, helper: true, key: fmt.Sprintf("%s#capped%d", fnName(fn), ord["cap"])}
+						for _, pu := range used {
+							if pu < len(call.Call.Args) {
+								r.limits = append(r.limits, call.Call.Args[pu])
+							}
+						}
+						capReads = append(capReads, r)
+						continue
+					}
+				}
+				nUnc++
+				ord[g.Name()]++
+				key := fmt.Sprintf("%s#uncapped:%s%d", fnName(fn), g.Name(), ord[g.Name()])
+				if cp := pointOf(call); e.reach(entryPoint(fn), c13Tgt{b: cp.Block, idx: cp.Idx}, off) {
+					plain := newCuts()
+					for ed := range off.edges {
+						plain.AddEdges(ed)
+					}
+					c.Violate(rule, key, "uncapped string read ("+g.Name()+") is reachable while a size cap is in force (maxSize > 0): the peer can make the capped reader buffer an arbitrarily large value", call.Pos(), c.describePath(findPath(entryPoint(fn), Target{Instr: call}, plain))...)
+				} else {
+					c.Ok(rule, key, "reachable only when maxSize <= 0", call.Pos())
+				}
+				continue
+			}
+			if j := k.capped(g, 0); j >= 0 && j < len(call.Call.Args) {
+				ord["cap"]++
+				capReads = append(capReads, capRead{call: call, limits: []ssa.Value{call.Call.Args[j]}, key: fmt.Sprintf("%s#capped%d", fnName(fn), ord["cap"])})
+			}
+		}
+		nCap += len(capReads)
+		// (b) limits of the capped reads
+		var lens []*ssa.Call
+		allInstrs(fn, func(_ *ssa.BasicBlock, _ int, in ssa.Instruction) {
+			if lc, ok := in.(*ssa.Call); ok {
+				if b, ok := lc.Call.Value.(*ssa.Builtin); ok && b.Name() == "len" && len(lc.Call.Args) == 1 {
+					lens = append(lens, lc)
 				}
 			}
-			if !acc && res != nil {
-				// the running total lives in a cell (captured by a budget closure, or handed to a helper): the
-				// limit depends on what is stored into it
-				acc = mustDepend(fn, r.limit, func(v ssa.Value) bool {
-					for _, lc := range lens {
-						if v == ssa.Value(lc) && lenOfRes(lc) {
+		})
+		usedSet := map[int]bool{}
+		for _, r := range capReads {
+			if !r.helper {
+				limit := r.limits[0]
+				dep := mustDepend(fn, limit, func(v ssa.Value) bool { return v == ssa.Value(maxSize) })
+				c.Check(dep, rule, r.key+"#limit<-maxSize", "limit depends on maxSize", "the limit of this capped read does not depend on maxSize", r.call.Pos())
+				pos := !e.sanitise(c13T{lo: true}, limit, r.call, nil, 0).lo
+				c.Check(pos, rule, r.key+"#limit>0", "a dominating test guarantees a positive remaining budget", "no dominating test that the remaining budget is positive (GetStringWithMaxSize reads nothing for a limit <= 0, so the loop would stop consuming but keep going)", r.call.Pos())
+			} else {
+				c.Ok(rule, r.key+"#budgeted-helper", "the cap is handed to "+fnName(calleeFn(r.call))+", whose reads are checked against it", r.call.Pos())
+			}
+			// the other integer parameters of fn the limit depends on (when fn itself is a budgeted helper)
+			for pi, p := range fn.Params {
+				if p == maxSize || !c13IsInt(p.Type()) {
+					continue
+				}
+				for _, l := range r.limits {
+					if mustDepend(fn, l, func(v ssa.Value) bool { return v == ssa.Value(p) }) {
+						usedSet[pi] = true
+					}
+				}
+			}
+			for _, a := range capReads {
+				// only reads that can be followed by this one (an earlier read, or the same one on a later iteration)
+				if findPath(after(a.call), Target{Instr: r.call}, nil) == nil {
+					continue
+				}
+				res := extractN(a.call, 0)
+				acc := false
+				lenOfRes := func(lc *ssa.Call) bool {
+					for _, o := range origins(fn, lc.Call.Args[0]) {
+						if o == res {
 							return true
 						}
 					}
 					return false
-				})
+				}
+				for _, limit := range r.limits {
+					for _, lc := range lens {
+						if res != nil && mentionsValue(limit, lc) && lenOfRes(lc) {
+							acc = true
+						}
+					}
+					if !acc && res != nil {
+						// the running total lives in a cell (captured by a budget closure, or handed to a helper): the
+						// limit depends on what is stored into it
+						acc = mustDepend(fn, limit, func(v ssa.Value) bool {
+							for _, lc := range lens {
+								if v == ssa.Value(lc) && lenOfRes(lc) {
+									return true
+								}
+							}
+							return false
+						})
+					}
+				}
+				c.Check(acc, rule, r.key+"#accounts:"+strings.TrimPrefix(a.key, fnName(fn)+"#"), "the limit is reduced by the length of the earlier read", "the limit does not account for the bytes consumed by the earlier capped read "+c.Pos(a.call.Pos())+": the cap is per string, not per ClassAd", r.call.Pos())
 			}
-			c.Check(acc, rule, r.key+"#accounts:"+strings.TrimPrefix(a.key, fnName(fn)+"#"), "the limit is reduced by the length of the earlier read", "the limit does not account for the bytes consumed by the earlier capped read "+c.Pos(a.call.Pos())+": the cap is per string, not per ClassAd", r.call.Pos())
 		}
+		var used []int
+		for pi := range fn.Params {
+			if usedSet[pi] {
+				used = append(used, pi)
+			}
+		}
+		analysed[fn] = used
+		return used
 	}
-	c.MinCount(rule, "capped read sites in the capped ClassAd reader", len(capReads), 1)
+	analyse(fn, maxSize, 0)
+	c.MinCount(rule, "maxSize > 0 tests", nTests, 1)
+	c.Note("%s: %d uncapped read site(s) in the capped ClassAd reader and its budget helpers, each reachable only in unlimited mode (none is required)", rule, nUnc)
+	c.MinCount(rule, "capped read sites in the capped ClassAd reader", nCap, 1)
 	// (c) inside GetStringWithMaxSize nothing larger than maxSize is demanded or allocated
 	if mx := intParam(gsm, "maxSize"); mx == nil {
 		c.Undecided(rule, fnName(gsm)+"#maxSize", "cannot identify the size-cap parameter", gsm.Pos())
@@ -681,6 +782,7 @@ func c13r4(c *Ctx) {
 	}
 	if capFn != nil {
 		n := 0
+		ord := map[string]int{}
 		for _, cs := range c.callSites(capFn.Object()) {
 			pk := fnPkg(cs.Fn)
 			if pk == nil || !libPkg(pk.Path()) || pk.Path() == ModPath+"/message" {
